@@ -580,6 +580,77 @@ theorem claim_await_unexpected (c : Ctx) (now : Int) (fuel addr : Nat) (rx' : By
   simp only [awaitGap_unexpected c now addr rx' t l ret rest hne hg hrx hr]
   simp [tr, toActiveIdle, hst']
 
+/-! ## 2. The pause between two sweeps (`gap_wait_rotations`) -/
+
+/-- A sweep ends by `next_gap_poll` returning `Waiting { rotation_count: 0 }`. -/
+theorem sweep_ends_with_zero (s : Station) (cur r : Nat) (h : nextGap s cur = some (.waiting r)) : r = 0 :=
+  nextGap_waiting_zero s cur r h
+
+/-- While waiting, a token visit only counts: as long as the counter does not exceed
+`gap_wait_rotations` it is incremented (and by `gap_poll_once_per_visit` no request is sent, the
+token is passed on). -/
+theorem gap_wait_counts (s : Station) (rot : Nat) (hg : s.gap = .waiting rot) (h : rot ≤ s.p.gapWait) :
+    gapAdvance s = some (.waiting (rot + 1)) := by
+  unfold gapAdvance
+  rw [hg]
+  simp only
+  rw [if_neg (by omega)]
+
+/-- Once the counter exceeds `gap_wait_rotations` the next visit starts a new sweep behind the own
+address (`next_gap_poll(TS)`: a poll of TS+1 if that is a GAP address, else `Waiting 0` again). -/
+theorem gap_wait_over (s : Station) (rot : Nat) (hg : s.gap = .waiting rot) (h : s.p.gapWait < rot) :
+    gapAdvance s = nextGap s s.p.address := by
+  unfold gapAdvance
+  rw [hg]
+  simp only
+  rw [if_pos (by omega)]
+
+/-- **`gap_wait_pause`**: after a sweep has ended (`Waiting 0`) the next `gap_wait_rotations + 1`
+token visits only count (no GAP poll), and the visit after those — the
+`(gap_wait_rotations + 2)`-th — starts the next sweep.  (`gapAfter s k` = GAP state after `k` token
+visits with the ring view unchanged.) -/
+theorem gap_wait_pause (s : Station) (hg : s.gap = .waiting 0) :
+    (∀ k, k ≤ s.p.gapWait + 1 → gapAfter s k = some (.waiting k)) ∧
+    gapAfter s (s.p.gapWait + 2) = nextGap s s.p.address := by
+  constructor
+  · intro k hk
+    have := gapAfter_waiting k s 0 hg (by omega)
+    simpa using this
+  · rw [show s.p.gapWait + 2 = (s.p.gapWait + 1) + 1 by omega, gapAfter_add]
+    have := gapAfter_waiting (s.p.gapWait + 1) s 0 hg (by omega)
+    rw [this]
+    simp only [gapAfter, Nat.zero_add]
+    have hga : gapAdvance { s with gap := .waiting (s.p.gapWait + 1) } = nextGap s s.p.address :=
+      gap_wait_over { s with gap := .waiting (s.p.gapWait + 1) } (s.p.gapWait + 1) rfl (by show s.p.gapWait < s.p.gapWait + 1; omega)
+    rw [hga]
+    cases nextGap s s.p.address <;> rfl
+
+/-- **Every GAP address is polled within a bounded number of token visits**: with the ring view
+unchanged, after a sweep has ended every address of the own GAP is the poll address of one of the
+visits number `gap_wait_rotations + 2 … gap_wait_rotations + 1 + |sweep|`, where the sweep has fewer
+than HSA entries (and by `sweep_exact`/`sweep_nodup` exactly one per GAP address). -/
+theorem gap_polled_within (s : Station) (hg : s.gap = .waiting 0) (hts : s.p.address < s.p.hsa)
+    (hh : s.p.hsa ≤ 126) (a : Nat) (ha : InGap s.p.address s.ring.ns s.p.hsa a) :
+    (sweepFrom s.p.address s.ring.ns s.p.hsa s.p.hsa s.p.address).length ≤ s.p.hsa - 1 ∧
+    ∃ v, s.p.gapWait + 2 ≤ v ∧
+      v ≤ s.p.gapWait + 1 + (sweepFrom s.p.address s.ring.ns s.p.hsa s.p.hsa s.p.address).length ∧
+      gapAfter s v = some (.doPoll a) := by
+  constructor
+  · have := sweep_length s.p.address s.ring.ns s.p.hsa hts hh s.p.hsa s.p.address hts
+    omega
+  · have hmem := (sweep_exact s.p.address s.ring.ns s.p.hsa hts hh a).mpr ha
+    obtain ⟨j, hj, hja⟩ := List.mem_iff_getElem.mp hmem
+    refine ⟨(s.p.gapWait + 1) + (j + 1), by omega, by omega, ?_⟩
+    rw [gapAfter_add, gapAfter_waiting (s.p.gapWait + 1) s 0 hg (by omega)]
+    simp only [Nat.zero_add]
+    have hsw := gapAfter_sweep s.p.hsa { s with gap := .doPoll s.p.address } s.p.address rfl j a
+      (by simp only [List.getElem?_eq_getElem hj, hja])
+    rw [← hsw]
+    have h1 : gapAdvance { s with gap := .waiting (s.p.gapWait + 1) } = nextGap s s.p.address :=
+      gap_wait_over { s with gap := .waiting (s.p.gapWait + 1) } (s.p.gapWait + 1) rfl (by show s.p.gapWait < s.p.gapWait + 1; omega)
+    have h2 : gapAdvance { s with gap := .doPoll s.p.address } = nextGap s s.p.address := rfl
+    simp only [gapAfter, h1, h2]
+
 /-! ## Non-vacuity of the station-level theorems: a concrete station 7 (HSA 126, NS 20, PS 3) -/
 
 def demoP : Params :=
@@ -617,5 +688,14 @@ example : obs (doClaimToken (demo (.claimToken (.scanAwait 19)) (.doPoll 19) [])
     some (.claimToken .scan, .waiting 0, none, 20) := by decide
 example : obs (doClaimToken (demo (.claimToken .scan) (.waiting 0) []) 1000 2) =
     some (.passToken false .first, .waiting 0, none, 20) := by decide
+-- 2. the pause: with gap_wait_rotations = 10 the visits 1..11 after the end of a sweep only count,
+-- the 12th polls 8 (= TS+1) again; every GAP address 8..19 is polled by visit 23
+example : (List.range 14).map (gapAfter (demo (.passToken true .first) (.waiting 0) []).s) =
+    [some (.waiting 0), some (.waiting 1), some (.waiting 2), some (.waiting 3), some (.waiting 4),
+     some (.waiting 5), some (.waiting 6), some (.waiting 7), some (.waiting 8), some (.waiting 9),
+     some (.waiting 10), some (.waiting 11), some (.doPoll 8), some (.doPoll 9)] := by decide
+example : InGap 7 20 126 19 := by decide
+example : gapAfter (demo (.passToken true .first) (.waiting 0) []).s 23 = some (.doPoll 19) := by decide
+example : gapAfter (demo (.passToken true .first) (.waiting 0) []).s 24 = some (.waiting 0) := by decide
 
 end PV.C12
